@@ -49,7 +49,12 @@ def install():
                 setattr(mod, k, vt.ThreadingProxy())
                 n_t += 1
             elif v is queue:
-                raise HarnessBroken(f"{mod.__name__} refers to the queue module as {k}: seam not covered")
+                setattr(mod, k, vt.QueueProxy())
+                n_q += 1
+            elif v is threading.Event:
+                setattr(mod, k, vt.VEvent)
+            elif v is threading.Lock or v is threading.RLock:
+                setattr(mod, k, vt.VLock)
     if n_q == 0 or n_t == 0:
         raise HarnessBroken(f"could not find the Queue ({n_q}) / Thread ({n_t}) seams in black_it.schedulers.rl")
     rs.RLScheduler._stopped = vt.SharedAttr("_stopped", True)  # noqa: SLF001
